@@ -359,6 +359,9 @@ class RealFloat(numbers.Rational):
                 other = RealFloat.from_int(other)
             case float():
                 if math.isnan(other) or math.isinf(other):
+                    if self._c == 0 and math.isinf(other):
+                        # IEEE 754 §7.2: 0 * inf is invalid
+                        return math.nan
                     # Convert self to float and perform float arithmetic
                     other_sgn = math.copysign(1.0, other) # extract the sign bit
                     s = self._s != (other_sgn < 0)
